@@ -558,6 +558,13 @@ func noncanonRun(req wrapReq, resp *drv.Response) error {
 				err = hc.RunVerifier(cfg, l, l)
 				out = hc.Outcome(err)
 			}
+			if out != "accept" && md == engine.Plain {
+				// under the bit-decomposition mechanism the width checks are gnark's bit decompositions: also with the digits a prover
+				// would supply for a value that does not fit (everything in digit 0)
+				cfg = &engine.Config{Mode: engine.Plain, RecordEvts: locEvents, Permissive: true, PermissiveFlavor: 2}
+				err = hc.RunVerifier(cfg, l, l)
+				out = hc.Outcome(err)
+			}
 			lf.Set(old)
 			resp.Count(fmt.Sprintf("noncanon/%s/%s/%s/%s", req.Instance, req.Mode, lf.Path, ks), false)
 			if out == "accept" {
